@@ -43,9 +43,9 @@ impl Adapter for BulkheadAd {
         let waits: &[i64] = &[-1, 0, 0, 1, 2, 3, 5];
         if rng.pct(6) {
             // the `small` preset exactly as shipped: 10 concurrent calls, reject when full
-            return json!({"hm": rng.below(3), "max": 10, "wait": 0, "ctor": 2});
+            return json!({"hm": rng.below(4), "max": 10, "wait": 0, "ctor": 2});
         }
-        json!({"hm": rng.below(3), "max": *rng.pick(maxes), "wait": *rng.pick(waits), "ctor": rng.below(2)})
+        json!({"hm": rng.below(4), "max": *rng.pick(maxes), "wait": *rng.pick(waits), "ctor": rng.below(2)})
     }
     fn build(&mut self, cfg: &Value, sim: &mut Sim) {
         let max = cfg["max"].as_u64().unwrap() as usize;
@@ -93,9 +93,7 @@ impl Adapter for BulkheadAd {
     fn mk(&mut self, req: &Req) -> CallFut {
         // every caller uses its own clone of the one bulkhead
         let f = self.svc.as_mut().unwrap().with(|s| {
-            let w = futures::task::noop_waker();
-            let mut cx = std::task::Context::from_waker(&w);
-            let _ = s.poll_ready(&mut cx);
+            ready_unless_parked(s);
             s.call(req.clone())
         });
         Box::pin(async move { map_res(f.await) })
